@@ -1166,9 +1166,8 @@ func init() {
 			Title: "a map is touched only under the mutex its declaration names: every lookup, range, len, store and delete on the repo manager's id maps (idMutex), its repo map (repoMutex) and branch heads (branchMutex), on the label counters (mlMu) and on neuronjson's metadata (metadataMu) happens with that mutex held — write-held for stores — in the function or at every one of its call sites; start-up loaders and constructors of a not yet published object are listed exceptions (the Go runtime ends the process on a concurrent map read and write)",
 			Fn:    ruleDeclaredGuards})
 	}
-	// reg("R20.41", "C20") // armed with the fix commits
-	// reg("R11.27", "C11")
-	_ = reg
+	reg("R20.41", "C20")
+	reg("R11.27", "C11")
 }
 
 func ruleDeclaredGuards(r *Run) {
@@ -1265,7 +1264,15 @@ func ruleDeclaredGuards(r *Run) {
 					r.check(true, construct, "exception: "+reason, "", w.pos(in.Pos()))
 					continue
 				}
-				held := heldHere(f, in, g.mutex, write, 0, map[*ssa.Function]bool{})
+				held := false
+				for _, h := range heldMutexesOfObject(f, in, fa.X, write) {
+					if h == g.mutex {
+						held = true
+					}
+				}
+				if !held {
+					held = heldHere(f, in, g.mutex, write, 0, map[*ssa.Function]bool{})
+				}
 				r.check(held, construct, "accessed with "+g.mutex+" held (here or at every call site)",
 					fmt.Sprintf("the map %s.%s is %s without %s (%s): a request that changes the map at the same time ends the whole process (`fatal error: concurrent map read and map write` cannot be recovered) or the access sees a half-updated map", mf.typ, mf.field, what, g.mutex, g.why), w.pos(in.Pos()))
 			}
@@ -1279,4 +1286,81 @@ func ruleDeclaredGuards(r *Run) {
 		r.check(perField[key] >= 1, "guard-table:"+g.pkg+"."+key, fmt.Sprintf("%d accesses", perField[key]), "no access of this map was found: the table entry is stale", "-")
 	}
 	r.check(n >= 30, "repo:declared-guard-accesses", fmt.Sprintf("%d", n), "too few: rule needs review", "-")
+}
+
+// ---------------------------------------------------------------------------------------------
+// R11.28 / R20.42 — one order for the repo manager's two big mutexes
+
+func init() {
+	reg := func(id, prop string) {
+		register(ruleDef{ID: id, Prop: prop, Tier: "quick", Floor: 3,
+			Title: "idMutex before repoMutex: the repo manager's id mutex is never acquired — directly or through a datastore function that acquires it — while the manager's repo mutex is held (listing the repos and deleting one take idMutex first and repoMutex inside it; the opposite order deadlocks against them and wedges every later request)",
+			Fn:    ruleIDMutexBeforeRepoMutex})
+	}
+	reg("R11.28", "C11")
+	reg("R20.42", "C20")
+}
+
+func ruleIDMutexBeforeRepoMutex(r *Run) {
+	w := r.W
+	acquires := func(f *ssa.Function, name string) bool {
+		for _, b := range f.Blocks {
+			for _, in := range b.Instrs {
+				if op, ok := asLockOp(in); ok && op.lock && op.name == name {
+					return true
+				}
+			}
+		}
+		return false
+	}
+	takesID := map[*ssa.Function]bool{}
+	for _, f := range w.RepoFuncs {
+		if relPkg(pkgPathOf(f)) == "datastore" && len(f.Blocks) > 0 && !isTestFunc(w, f) && acquires(f, "idMutex") {
+			takesID[f] = true
+		}
+	}
+	nested, bad := 0, 0
+	for _, f := range w.RepoFuncs {
+		if relPkg(pkgPathOf(f)) != "datastore" || len(f.Blocks) == 0 || isTestFunc(w, f) {
+			continue
+		}
+		for _, b := range f.Blocks {
+			for _, in := range b.Instrs {
+				if op, ok := asLockOp(in); ok && op.lock {
+					if op.name == "repoMutex" {
+						if h, _ := heldAt(f, in, "idMutex", false); h {
+							nested++
+						}
+					}
+					if op.name == "idMutex" {
+						if h, _ := heldAt(f, in, "repoMutex", false); h {
+							bad++
+							r.violation(fmt.Sprintf("%s:idMutex-under-repoMutex#%d", fname(f), bad),
+								"idMutex is acquired while repoMutex is held: MarshalJSON and deleteRepo take them in the other order — with a writer waiting on either, the two requests block each other for good and every later request that needs the maps hangs", w.pos(in.Pos()))
+						}
+					}
+					continue
+				}
+				c, ok := in.(ssa.CallInstruction)
+				if !ok {
+					continue
+				}
+				if _, isGo := in.(*ssa.Go); isGo {
+					continue
+				}
+				callee := staticCallee(c)
+				if callee == nil || !takesID[callee] {
+					continue
+				}
+				if h, _ := heldAt(f, in, "repoMutex", false); h {
+					bad++
+					r.violation(fmt.Sprintf("%s:%s-under-repoMutex#%d", fname(f), callee.Name(), bad),
+						"a function that acquires idMutex ("+callee.Name()+") is called while repoMutex is held: the order is the opposite of MarshalJSON's and deleteRepo's and can deadlock against them", w.pos(in.Pos()))
+				}
+			}
+		}
+	}
+	r.check(nested >= 2, "datastore:repoMutex-inside-idMutex", fmt.Sprintf("%d nested acquisitions in the reference order, %d in the opposite order", nested, bad), "the reference order (repoMutex inside idMutex) was found fewer than twice: rule needs review", "-")
+	r.check(true, "datastore:scanned", fmt.Sprintf("%d functions acquire idMutex", len(takesID)), "", "-")
+	r.check(len(takesID) >= 10, "datastore:idMutex-users", fmt.Sprintf("%d", len(takesID)), "too few: rule needs review", "-")
 }
